@@ -32,6 +32,24 @@ CLAIMED = {
         "Runs that hit the 4000-step budget without a proven loop are inconclusive (counted). Scheduler runtime 0.",
         "DESIGN.md 3 C05",
     ),
+    "C06": (
+        "Hypothesis-generated cancel-heavy worlds; every successful Task transition checked against a reference lifecycle automaton and the final cancelled set checked for downstream closure",
+        "Reference automaton over all observed Task.release/schedule/unschedule/start/finish/cancel calls plus an end-of-run closure predicate (a descendant that can no longer receive its inputs is CANCELLED, never started, has one TASK_CANCEL row; TASK_GRAPH_FINISHED iff all sinks completed). Exploration.",
+        "Graph structure comes from the generated spec; scheduler runtime 0; no preemption.",
+        "DESIGN.md 3 C06",
+    ),
+    "C07": (
+        "Hypothesis-generated worlds dominated by (nested) conditional regions; per completed conditional the taken/untaken branches are judged from final states and start histories",
+        "For every completed conditional of every generated run: exactly one child alive with positive (instantiation-time) probability, every task strictly inside the untaken branches cancelled and never started, join and successors ran exactly once; resolution at submission respected. Exploration.",
+        "Only well-formed conditional/terminal regions are generated; feasible clusters, work-conserving greedy policies, no timeout.",
+        "DESIGN.md 3 C07",
+    ),
+    "C08": (
+        "Hypothesis-generated worlds; differential check of every CSV row and of the end-of-run summary against ground truth from Task objects, monitors and shadow ledger, then round-trip through data.CSVReader",
+        "Each trace row is recomputed from independent observations and the whole trace is parsed by the project's reader whose reconstruction is compared field by field (differential / round-trip oracle). Exploration.",
+        "Crashing/livelocking runs are judged by C05. Scheduler runtime 0; no preemption.",
+        "DESIGN.md 3 C08",
+    ),
     "C16": (
         "Hypothesis-generated EventTime triples against integer-microsecond arithmetic; generated "
         "EventQueue operation histories against a reference multiset (model-based)",
